@@ -66,6 +66,9 @@ pub enum Op {
     /// arm a single-shot storage fault: the PUT of the primary's metadata object fails after `k` more
     /// such PUTs succeeded (disarmed by restart / crash)
     Fault(usize),
+    /// the same for the PUT of `<primary>/storage_meta.cbor`, which `flush_metadata` writes AFTER the
+    /// metadata object: the key map / registry did land, the request is answered 5xx all the same
+    Fault2(usize),
     /// disarm the fault
     NoFault,
     Fixture(String),
@@ -199,6 +202,7 @@ impl Op {
             Op::Restart => "restart".into(),
             Op::Crash => "crash".into(),
             Op::Fault(k) => format!("fault {k}"),
+            Op::Fault2(k) => format!("fault2 {k}"),
             Op::NoFault => "nofault".into(),
             Op::Fixture(n) => format!("fixture {}", enc_str(n)),
             Op::Req(r) => {
@@ -229,6 +233,7 @@ impl Op {
             ["restart"] => Some(Op::Restart),
             ["crash"] => Some(Op::Crash),
             ["fault", k] => Some(Op::Fault(k.parse().ok()?)),
+            ["fault2", k] => Some(Op::Fault2(k.parse().ok()?)),
             ["nofault"] => Some(Op::NoFault),
             ["fixture", n] => Some(Op::Fixture(dec_str(n)?)),
             ["req", verb, target, auth, ct, accept, body @ ..] => {
